@@ -19,6 +19,7 @@ RULE = ('grammars with probe commands `__p <id> "$1" "$2"` at top level, inside 
         'invoked with exactly those arguments; and COMPREPLY equals the reference answer (text before the first '
         'tab of the lines extending the typed text; a complete word advances iff it equals a candidate). '
         'non-trivial = command line on which >= 1 invocation was logged; distinct by (grammar, words)')
+RULE += ' ' + 'Family: two to four different words each with a command of its own inside (local and script-wide command numbers differ).'
 ASSUMPTIONS = ['bash 5.2; commands are bash functions defined by the harness, called through the emitted _<cmd>_cmd_N wrappers',
                'reference interpreter cgv/refrun.py; KF-A (stale state) is recognised by exact signature as in C01']
 MIN_EVALS = {'quick': 500, 'thorough': 5000}
